@@ -33,9 +33,13 @@ def gen_history(rng, n):
                 b['metadata']['foo'] = rng.choice([[[1, 2], [4]], [{'x': 1}, 6], [{'x': 3}], {'foo': [{'k': 2}]}, {'foo': [[2]]}])
             calls.append({'t': 'diff', 'a': enc(a), 'b': enc(b)})
         elif r < 0.68:
-            base = copy.deepcopy(rng.choice(pool))
-            l, _ = gen_nb.edit_notebook(rng, base)
-            rr, _ = gen_nb.edit_notebook(rng, base)
+            if rng.random() < 0.5:
+                # both sides insert similar cells at one position: the merger aligns them with the notebook differ
+                base, l, rr, _ = gen_nb.triple_scenario(rng, first='concurrent-insert')
+            else:
+                base = copy.deepcopy(rng.choice(pool))
+                l, _ = gen_nb.edit_notebook(rng, base)
+                rr, _ = gen_nb.edit_notebook(rng, base)
             args = rng.choice(mergelib.all_combos())
             calls.append({'t': 'merge', 'b': enc(base), 'l': enc(l), 'r': enc(rr), 'args': args.key()})
         elif r < 0.8:
@@ -48,6 +52,27 @@ def gen_history(rng, n):
             calls.append({'t': 'ignores', 'm': [[k, v] for k, v in m.items()]})
         else:
             calls.append({'t': 'reset'})
+    return calls
+
+
+def gen_merge_history(rng):
+    """merges whose cell alignment consults the notebook differ, interleaved with configuration changes"""
+    calls = []
+    def merge():
+        base, l, rr, _ = gen_nb.triple_scenario(rng, first='concurrent-insert')
+        calls.append({'t': 'merge', 'b': enc(base), 'l': enc(l), 'r': enc(rr), 'args': rng.choice([mergelib.Args('inline'), mergelib.Args('mergetool'), rng.choice(mergelib.all_combos())]).key()})
+    for _ in range(rng.choice([2, 3, 4])):
+        merge()
+        r = rng.random()
+        if r < 0.5:
+            flags = [rng.random() < 0.5 for _ in range(6)]
+            calls.append({'t': 'targets', 'flags': flags})
+        elif r < 0.75:
+            calls.append({'t': 'reset'})
+        else:
+            ign = [c for c in c14.CATS if rng.random() < 0.5]
+            calls.append({'t': 'ignores', 'm': [[k, v] for k, v in c14.ignore_mapping(ign).items()]})
+    merge()
     return calls
 
 
@@ -136,6 +161,7 @@ def run(ctx):
     if os.path.exists(cp):
         histories += json.load(open(cp))
     histories += [gen_history(rng, rng.choice([3, 5, 8, 12])) for _ in range(n)]
+    histories += [gen_merge_history(rng) for _ in range(14 if ctx.tier == 'quick' else 300)]
     mism = check_histories(ctx, histories, 12 if ctx.tier == 'quick' else 150)
     ctx.cov['correspondence_mismatches'] = len(mism)
     if mism and not ctx.violations:
